@@ -787,6 +787,7 @@ def clifford_approx_validate(ctx, T):
 # ---------------------------------------------------------------------------
 KNOWN_UM1 = "SingleQubitUnitaryMatrix2RYRZTranspiler.near-diagonal"
 KNOWN_KAK = "TwoQubitUnitaryMatrixKAKTranspiler.near-degenerate"
+KNOWN_KAK_BALANCED = "TwoQubitUnitaryMatrixKAKTranspiler.equal-modulus-local-factor"
 KNOWN_IONQ_DROP = "IonQNativeTranspiler.drops-unsupported-gates"
 KNOWN_IONQ_XX = "IonQNativeTranspiler.XX-angle-ignored"
 C1Q = ["H", "X", "Y", "Z", "S", "Sdag", "SqrtX", "SqrtXdag", "SqrtY", "SqrtYdag", "Identity"]
@@ -1089,13 +1090,15 @@ def kak_near_validate(ctx, T):
         except KeyError:
             ctx.count("validate.kak-near", "oracle-unknown-gate")
             return
-        gap = kak_gap(m)
+        near, gap = kak_known_class(m)
         # tolerance 1e-5: QuantumGate.unitary_matrix hands the decomposer the matrix with imaginary parts below 1e-7 dropped,
-        # an input perturbation the documented behaviour includes.  Known class: eigenvalue gap < 1e-3 (measured: errors up
-        # to 2.0 / NaN for gaps < 1e-5, up to 0.6 for [1e-5,1e-4), up to 0.03 for [1e-4,1e-3), below 1e-7 above 1e-3).
+        # an input perturbation the documented behaviour includes.  Known class (decided from the input alone): the spectrum
+        # the decomposer sees is nearly but not exactly degenerate, eigenvalue gap in [1e-12, 1e-3) (measured: errors up to
+        # 2.0 / NaN for gaps < 1e-5, up to 0.6 for [1e-5,1e-4), up to 0.03 for [1e-4,1e-3), below 1e-7 above 1e-3; exactly
+        # degenerate spectra are refused or decomposed correctly by the unchanged code).
         ctx.count("validate.kak-near", f"{fam}:" + ("ok" if d <= 1e-5 else "MISMATCH"))
         if not d <= 1e-5:
-            key = KNOWN_KAK if gap < 1e-3 else "transpile:" + name
+            key = KNOWN_KAK if near else "transpile:" + name
             ctx.witness(key, f"{name}: 2-qubit UnitaryMatrix ({fam}, KAK eigenvalue gap {gap:.3g}) decomposed into an operator {d:.3g} away (up to phase), no error raised",
                         describe_circ(c), {"dist": d, "gap": gap})
 
@@ -1109,6 +1112,151 @@ def kak_near_validate(ctx, T):
     # pinned witnesses of the known finding
     one(_expi(0.3 * kr(X, X) + (0.3 + 1e-7) * kr(Y, Y) + 0.1 * kr(Z, Z)), "pinned:exp(i(.3XX+(.3+1e-7)YY+.1ZZ))", makes[0][1], makes[0][0])
     one(dense.local_matrix("CNOT") @ _expi(1e-7 * (kr(X, X) + 0.5 * kr(Y, Z))), "pinned:CNOT·exp(1e-7i(XX+.5YZ))", makes[0][1], makes[0][0])
+
+
+def _seen_by_decomposer(m):
+    """the matrix as QuantumGate.unitary_matrix hands it to su4_decompose: imaginary parts below 1e-7 are dropped
+    (packages/rust/src/circuit/gate.rs get_unitary_matrix)"""
+    import numpy as np
+
+    m = np.array(m, dtype=complex)
+    m.imag[np.abs(m.imag) < 1e-7] = 0.0
+    return m
+
+
+def kak_known_class(m):
+    """trigger class of the recorded finding `…KAKTranspiler.near-degenerate`, decided from the INPUT alone: the spectrum the
+    decomposer works with is nearly – not exactly – degenerate (smallest eigenvalue distance in [1e-12, 1e-3)).  Exactly
+    degenerate spectra (pure product gates, CZ/CNOT/SWAP classes: distance at rounding level) are refused or handled by
+    the unchanged code, well separated ones are decomposed to 1e-7: a failure there is never filed under the known key."""
+    g = kak_gap(_seen_by_decomposer(m))
+    return 1e-12 <= g < 1e-3, g
+
+
+def local_factor(rng, kind=None):
+    """(2x2 unitary, family) for one side of a KAK local layer"""
+    import cmath
+
+    import numpy as np
+
+    from oracle import dense
+
+    u = lambda: rng.uniform(-math.pi, math.pi)
+    kind = kind or rng.choice(["identity", "diagonal", "monomial", "clifford", "generic-small", "generic-large", "generic-large", "tie"])
+    if kind == "identity":
+        m = np.eye(2)
+    elif kind == "diagonal":
+        m = np.diag([cmath.exp(1j * u()), cmath.exp(1j * u())])
+    elif kind == "monomial":  # X-like: one entry per row and column, off the diagonal
+        m = np.array([[0, cmath.exp(1j * u())], [cmath.exp(1j * u()), 0]])
+    elif kind == "clifford":
+        m = dense.ONE[rng.choice(["H", "S", "Sdag", "X", "Y", "Z", "SqrtX", "SqrtXdag", "SqrtY", "SqrtYdag"])]
+    elif kind == "generic-small":  # |A[0,0]| > |A[1,0]|
+        m = dense.u3(rng.uniform(0.05, 1.4), u(), u())
+    elif kind == "generic-large":  # |A[1,0]| > |A[0,0]|: rotation by more than π/2
+        m = dense.u3(rng.uniform(1.75, math.pi - 0.05), u(), u())
+    else:  # |A[1,0]| = |A[0,0]|
+        m = dense.u3(math.pi / 2, u(), u())
+    if rng.random() < 0.3:
+        m = cmath.exp(1j * u()) * np.asarray(m, dtype=complex)
+    return np.asarray(m, dtype=complex), kind
+
+
+def layered_u4(rng):
+    """(A ⊗ B)·K·(C ⊗ D): every local factor drawn independently per side from `local_factor`, K the identity (pure product
+    gate), a generic or partly vanishing interaction exp(i(aXX+bYY+cZZ)), or CZ / CNOT / SWAP / iSWAP.  Returns (matrix, family, local factors)."""
+    import numpy as np
+
+    from oracle import dense
+
+    X, Y, Z = dense.PX, dense.PY, dense.PZ
+    kk = rng.choice(["identity", "interaction", "interaction", "interaction", "CZ", "CNOT", "SWAP", "iSWAP", "interaction-2"])
+    if kk == "identity":
+        k = np.eye(4, dtype=complex)
+    elif kk == "interaction":
+        a, b, c = (rng.choice([0.3, 0.5, 0.7, 0.2, 0.9, 1.1]) for _ in range(3)) if rng.random() < 0.4 else (rng.uniform(0.1, 1.4) for _ in range(3))
+        k = _expi(a * np.kron(X, X) + b * np.kron(Y, Y) + c * np.kron(Z, Z))
+    elif kk == "interaction-2":
+        a, b = rng.uniform(0.1, 1.4), rng.uniform(0.1, 1.4)
+        p, q = rng.sample([X, Y, Z], 2)
+        k = _expi(a * np.kron(p, p) + b * np.kron(q, q))
+    elif kk == "iSWAP":
+        k = _expi(math.pi / 4 * (np.kron(X, X) + np.kron(Y, Y)))
+    else:
+        k = np.asarray(dense.local_matrix(kk), dtype=complex)
+        if kk == "CNOT" and rng.random() < 0.5:  # either control
+            k = np.asarray(dense.local_matrix("SWAP")) @ k @ np.asarray(dense.local_matrix("SWAP"))
+    mode = rng.choice(["left", "left", "right", "right", "both"])
+    pre = post = ""
+    factors = []
+    left = right = np.eye(4, dtype=complex)
+    if mode in ("left", "both"):
+        (a, fa), (b, fb) = local_factor(rng), local_factor(rng)
+        left, pre = np.kron(a, b), f"({fa}⊗{fb})·"
+        factors += [a, b]
+    if mode in ("right", "both"):
+        (c, fc), (d, fd) = local_factor(rng), local_factor(rng)
+        right, post = np.kron(c, d), f"·({fc}⊗{fd})"
+        factors += [c, d]
+    return left @ k @ right, pre + kk + post, factors
+
+
+def balanced_factor(factors):
+    """some local factor has entries of equal modulus (H, SqrtX, SqrtY, RY(π/2), … : ||F00| − |F10|| < 1e-6)"""
+    return any(abs(abs(f[0][0]) - abs(f[1][0])) < 1e-6 for f in factors)
+
+
+
+def kak_layered_validate(ctx, T):
+    """KAK inputs with structure in the LOCAL layers: (A ⊗ B)·K·(C ⊗ D) from `layered_u4`, both target orders, standalone and
+    inside presets.  Faithful, or refused.  A mismatch is filed under a recorded finding only when the input is in that
+    finding's trigger class (nearly degenerate spectrum / a local factor with entries of equal modulus)."""
+    import numpy as np
+
+    from oracle import dense
+    from quri_parts.circuit import QuantumCircuit, gates
+
+    rng = ctx.rng
+
+    def one(m, fam, factors, make, name):
+        tg = rng.choice([[0, 1], [1, 0]])
+        n = rng.choice([2, 2, 3])
+        if n == 3:
+            tg = rng.sample(range(3), 2)
+        c = QuantumCircuit(n)
+        c.add_gate(gates.UnitaryMatrix(tg, m.tolist()))
+        u_in = dense.embed(n, tg, np.asarray(m, dtype=complex))
+        ctx.evaluations += 1
+        try:
+            out = make()(c)
+        except Exception as e:  # noqa: BLE001 – refusing is allowed
+            ctx.count("validate.kak-layered", "raised:" + type(e).__name__)
+            return
+        try:
+            d = dense.phase_dist(dense.circuit_unitary(n, out.gates), u_in)
+        except KeyError:
+            ctx.count("validate.kak-layered", "oracle-unknown-gate")
+            return
+        if d <= 1e-5:
+            ctx.count("validate.kak-layered", "ok")
+            return
+        near, gap = kak_known_class(m)
+        key = KNOWN_KAK if near else KNOWN_KAK_BALANCED if balanced_factor(factors) else "transpile:" + name
+        ctx.count("validate.kak-layered", "MISMATCH:" + ("near-degenerate" if near else "balanced-factor" if key == KNOWN_KAK_BALANCED else "FRESH"))
+        ctx.witness(key, f"{name}: 2-qubit UnitaryMatrix {fam} (KAK eigenvalue gap {gap:.3g}) decomposed into an operator {d:.3g} away (up to phase), no error raised",
+                    describe_circ(c), {"dist": d, "gap": gap, "family": fam})
+
+    makes = [("TwoQubitUnitaryMatrixKAKTranspiler", T.TwoQubitUnitaryMatrixKAKTranspiler)] * 4 + [
+        ("RZSetTranspiler", T.RZSetTranspiler), ("RotationSetTranspiler", T.RotationSetTranspiler), ("CliffordRZSetTranspiler", T.CliffordRZSetTranspiler)]
+    for _ in range(ctx.n(400, 8000)):
+        m, fam, factors = layered_u4(rng)
+        name, make = rng.choice(makes)
+        one(m, fam, factors, make, name)
+    # pinned witness of the recorded finding: a Hadamard on one qubit, then a generic interaction
+    X, Y, Z = dense.PX, dense.PY, dense.PZ
+    h = np.asarray(dense.ONE["H"], dtype=complex)
+    m = _expi(0.3 * np.kron(X, X) + 0.5 * np.kron(Y, Y) + 0.7 * np.kron(Z, Z)) @ np.kron(h, np.eye(2))
+    one(m, "pinned:exp(i(.3XX+.5YY+.7ZZ))·(H⊗I)", [h], makes[0][1], makes[0][0])
 
 
 # ---- parametric transpilers ----------------------------------------------------------------------------------------------------
@@ -1701,6 +1849,7 @@ def validate_extra(ctx):
         ("config", lambda: config_validate(ctx, mod("quri_parts.circuit.transpile"))),
         ("um1", lambda: um1_validate(ctx, mod("quri_parts.circuit.transpile"))),
         ("kak-near", lambda: kak_near_validate(ctx, mod("quri_parts.circuit.transpile"))),
+        ("kak-layered", lambda: kak_layered_validate(ctx, mod("quri_parts.circuit.transpile"))),
         ("parametric", lambda: parametric_validate(ctx, mod("quri_parts.circuit.transpile"))),
         ("parametric-reject", lambda: parametric_reject_validate(ctx, mod("quri_parts.circuit.transpile"))),
         ("ionq", lambda: ionq_extra_validate(ctx, mod("quri_parts.ionq.circuit.transpile"))),
